@@ -27,6 +27,15 @@ def _dom(parity):
     return dom
 
 
+def _direction(run, f, path, want, label):
+    """Transform directions on a path: data enter the frequency domain by the FORWARD transform (the convention in which
+    transfer functions / OTFs are defined) and come back by the inverse."""
+    seq = [e['which'] for e in path.events if e['kind'] == 'fft']
+    run.check(seq == want, 'C15.origin', f.qual, 'transform directions ' + label, 'transforms applied in the order %s' % want,
+              '%s applies the transforms %s, expected %s: with forward and inverse exchanged every real, even transfer function still works, but a complex or asymmetric one is '
+              'applied conjugated (a displaced impulse moves the image the wrong way; conv and apply_transfer_functions disagree)' % (f.name, seq, want), f.loc())
+
+
 def conv_rules(run, db):
     f = db.func(CV + 'conv')
     for parity in (0, 1):
@@ -37,6 +46,7 @@ def conv_rules(run, db):
         if len(res) != 1:
             raise AnalysisError('conv: expected one path')
         v = res[0].value
+        _direction(run, f, res[0], ['fft2', 'fft2', 'ifft2'], '[%s]' % par)
         ok = isinstance(v, Og) and v.o == ohalf(parity) and v.r.is_zero()
         run.check(ok, 'C15.origin', f.qual, 'conv origin', 'centred object (*) centred PSF -> centred image, no phase ramp [%s]' % par,
                   'conv returns %r for %s sizes (expected the origin at n//2 and no ramp): the image is displaced / the real part is taken of a ramped array' % (v, par), f.loc())
@@ -78,6 +88,9 @@ def atf_rules(run, db):
                 if not isinstance(v, Og):
                     raise AnalysisError('apply_transfer_functions(shift=%s): result has no origin typestate on path %s: %r' % (shift, p.conds, v))
                 key = repr(v)
+                if ('dir', shift) not in seen:
+                    seen.add(('dir', shift))
+                    _direction(run, f, p, ['fft2', 'ifft2'], 'shift=%s [%s]' % (shift, par))
                 ok = isinstance(v, Og) and v.o == ohalf(parity) and v.r.is_zero()
                 mism = [e for e in p.events if e['kind'] in ('origin-mismatch', 'real-of-ramped')]
                 fxv = p.frame.env.get('fx')
@@ -113,6 +126,39 @@ def atf_rules(run, db):
               'the loop over tfs does not multiply the spectrum by each element exactly once (%d multiplications, %d control statements)' % (len(mults), len(ctl)), f.loc(lp))
 
 
+def grid_shape_rules(run, db):
+    """Frequency grids handed to callable transfer functions broadcast to the shape of the spectrum they multiply,
+    whether the caller gives none, vectors, or the documented 2-D (M, N) grids."""
+    from ..domains.shape import ShapeDomain, Sh, Scalar, broadcast
+    from .common import block_as_function
+    f = db.func(CV + 'apply_transfer_functions')
+    blk = [n for n in f.node.body if isinstance(n, ast.If) and 'callable' in ast.unparse(n.test)]
+    if len(blk) != 1:
+        raise AnalysisError('apply_transfer_functions: the callable-grid block was not found')
+    fn, params = block_as_function(f, blk[0].body, ['fx', 'fy', 'fr', 'ft'], 'grids')
+
+    def ft_unit(dom, fi, args, kwargs, node):
+        n = args[1] if len(args) > 1 else kwargs.get('samples')
+        from ..domains.shape import Dim
+        return Sh((n.n,)) if isinstance(n, Dim) else Sh(('?',))
+    for label, gx, gy in (('no grids given', Const(None), Const(None)), ('vectors (N,), (M,)', Sh(('N',)), Sh(('M',))), ('2-D grids (M, N)', Sh(('M', 'N')), Sh(('M', 'N')))):
+        dom = ShapeDomain({'prysm.fttools.forward_ft_unit': ft_unit})
+        it = Interp(db, dom)
+        kw = {p_: Scalar() for p_ in params}
+        kw.update({'obj': Sh(('M', 'N')), 'fx': gx, 'fy': gy, 'fr': Const(None), 'ft': Const(None), 'dx': Scalar(), 'shift': Const(False)})
+        res = [p for p in it.run(fn, kwargs=lambda: dict(kw)) if p.outcome == 'return']
+        if not res:
+            raise AnalysisError('apply_transfer_functions grids (%s): no returning path' % label)
+        for p in res:
+            errs = [e for e in p.events if e['kind'] in ('broadcast-error', 'index-error')]
+            shapes = [v.dims if isinstance(v, Sh) else None for v in p.value.items]
+            ok = not errs and all(sh is not None for sh in shapes) and all(broadcast(sh, ('M', 'N')) == ('M', 'N') for sh in shapes) \
+                and shapes[2] == ('M', 'N') and shapes[3] == ('M', 'N') and broadcast(shapes[0], shapes[1]) == ('M', 'N')
+            run.check(ok, 'C15.grid', f.qual, 'grid shapes: ' + label, 'fx, fy broadcast to (M, N) and fr, ft have shape (M, N) [%s]' % label,
+                      'with %s the grids handed to callable transfer functions have shapes fx=%s fy=%s fr=%s ft=%s; they must broadcast to the (M, N) spectrum (a wrong rank silently yields a 3-D "image")'
+                      % tuple([label] + shapes), f.loc(blk[0]))
+
+
 def otf_rules(run, db):
     f = db.func(OT + 'transform_psf')
     for parity in (0, 1):
@@ -129,6 +175,7 @@ def otf_rules(run, db):
         if len(res) != 1:
             raise AnalysisError('transform_psf: expected one path, got %d' % len(res))
         v = res[0].value
+        _direction(run, f, res[0], ['fft2'], '[%s]' % par)
         d = v.items[0] if isinstance(v, Tup) else None
         run.check(isinstance(d, Og) and d.o == ohalf(parity) and d.r.is_zero(), 'C15.origin', f.qual, 'otf transform', 'centred PSF -> spectrum with DC at n//2 and no phase ramp [%s]' % par,
                   'transform_psf returns %r for %s sizes: the DC sample is not at n//2 (the index the MTF is normalised by) or a linear phase is left in the OTF' % (d, par), f.loc())
@@ -168,6 +215,9 @@ def cache_rules(run, db):
         run.check(not missing, 'C15.cache', fi.qual, 'memo %s' % memo, 'memo %s is keyed by every input its fill block reads' % memo,
                   'the memo %s is filled from %s, which the key does not contain: a later call that differs only in %s gets the cached value of the earlier call (results depend on call history)'
                   % (memo, missing, missing), fi.loc(st))
+    from .purity import memo_inplace
+    for fi, st, callee in memo_inplace(db, ['prysm.convolution', 'prysm.otf', 'prysm.fttools', 'prysm.coordinates']):
+        run.finding('C15.cache', fi.qual, norm_stmt(st), 'in-place write into the result of the memoising function %s: later callers receive the edited array (results depend on call history)' % callee.qual, fi.loc(st))
     for q in (CV + 'conv', CV + 'apply_transfer_functions', OT + 'transform_psf', OT + 'mtf_from_psf', OT + 'ptf_from_psf', OT + 'otf_from_psf'):
         fi = db.func(q)
         muts = [m for m in input_mutations(fi) if m[1] in fi.params]
@@ -185,7 +235,7 @@ def check(run, db, tier):
     run.rule('C15.fold', 'the transfer-function list is folded multiplicatively over every element exactly once')
     run.rule('C15.dc', 'MTF/PTF/OTF share one transform and are normalised by their own sample at n//2')
     run.rule('C15.cache', 'no memo keyed by less than its fill reads; arguments are not modified in place (results do not depend on call history)')
-    for fn in (conv_rules, atf_rules, otf_rules, cache_rules):
+    for fn in (conv_rules, atf_rules, grid_shape_rules, otf_rules, cache_rules):
         run.group(fn, run, db)
     run.require_instances('C15.origin', 12)
     run.require_instances('C15.dc', 20)
